@@ -287,6 +287,17 @@ def rewrite_macros(text, log, where, settings):
             return text
 
 
+R11_PAT = re.compile(r"\b(\w+)\.splice\(\s*([\w.()+\- ]+?)\s*\.\.\s*([\w.()+\- ]+?)\s*,\s*([\w.]+)\.to_be_bytes\(\)\.iter\(\)\.copied\(\)\s*\)")
+
+
+def rewrite_splice(text, log, where):
+    """R11: x.splice(a..b, y.to_be_bytes().iter().copied()) -> verif_splice_be16(&mut x, a, b, y)"""
+    text, n = R11_PAT.subn(r"verif_splice_be16(&mut \1, \2, \3, \4)", text)
+    for _ in range(n):
+        log.append(("R11", where, "splice(a..b, be16 bytes)"))
+    return text
+
+
 R6_PATS = [
     (re.compile(r"u16::from_be_bytes\(\s*([^;{}]*?)\s*\.try_into\(\)\s*\.unwrap\(\)\s*,?\s*\)", re.S), r"verif_be16(\1)"),
     (re.compile(r"u32::from_be_bytes\(\s*([^;{}]*?)\s*\.try_into\(\)\s*\.unwrap\(\)\s*,?\s*\)", re.S), r"verif_be32(\1)"),
@@ -580,8 +591,8 @@ def annotate_closures(u, fnpath, text, log):
                 j += 1
             end = toks[j - 1].end
             body = "{ " + text[toks[b].start:end] + " }"
-        hdr = " ".join("/*@closure %s*/ %s" % (vctag(u, c["line"] + 1 + n), l) for n, l in enumerate(c["text"].split("\n")))
-        text = text[:toks[k].start] + hdr + " " + body + text[end:]
+        hdr = "\n".join("/*@closure %s*/ %s" % (vctag(u, c["line"] + 1 + n), l) for n, l in enumerate(c["text"].split("\n")))
+        text = text[:toks[k].start] + "\n" + hdr + "\n" + body + text[end:]
         log.append(("R13", fnpath, "closure header annotated (%s)" % vctag(u, c["line"])))
     return text
 
@@ -593,25 +604,28 @@ def process_fn(u, fnpath, text, log, origin, canary=None):
     text = demut_params(text, log, fnpath)
     text = rewrite_macros(text, log, fnpath, settings)
     text = rewrite_be_bytes(text, log, fnpath)
+    text = rewrite_splice(text, log, fnpath)
     text = apply_substs(u, fnpath, text, log)
     text = name_wildcard_closure_params(text, log, fnpath)
-    text = annotate_closures(u, fnpath, text, log)
-    # hints first (they are anchored on original body lines)
-    for h in u.hints:
+    # hints first: every anchor is resolved on the text as extracted (before any hint is
+    # inserted), then the insertions are made bottom-up
+    lines = text.split("\n")
+    todo = []
+    for hn, h in enumerate(u.hints):
         if h["fn"] != fnpath:
             continue
-        lines = text.split("\n")
         hits = [i for i, l in enumerate(lines) if h["anchor"] in l]
         if len(hits) < h["nth"]:
-            raise Lost("hint anchor %r (#%d) not found in %s (%s:%d)" % (h["anchor"], h["nth"], fnpath, u.vcpath, h["line"]))
+            raise Lost("hint anchor %r (#%d) not found in %s (%s)" % (h["anchor"], h["nth"], fnpath, vctag(u, h["line"])))
         at = hits[h["nth"] - 1] + h.get("plus", 0)
         ins = h["text"].split("\n")
         ins = ["/*@hint %s*/ %s" % (vctag(u, h["line"] + 1 + k), l) for k, l in enumerate(ins)]
-        if h["where"] == "before":
-            lines[at:at] = ins
-        else:
-            lines[at + 1:at + 1] = ins
-        text = "\n".join(lines)
+        pos = at if h["where"] == "before" else at + 1
+        todo.append((pos, hn, ins))
+    for pos, hn, ins in sorted(todo, key=lambda x: (x[0], x[1]), reverse=True):
+        lines[pos:pos] = ins
+    text = "\n".join(lines)
+    text = annotate_closures(u, fnpath, text, log)
     # loops (from last to first so offsets stay valid)
     p = fn_parts(text)
     toks = p["toks"]
